@@ -48,6 +48,7 @@ func TestMain(m *testing.M) {
 	if err != nil {
 		panic(err)
 	}
+	mon.SetClient(nil) // starts the loop that receives the topic
 	code := m.Run()
 	ev.Flush()
 	os.Exit(code)
@@ -397,7 +398,7 @@ func sortedPeers(ps []peer.ID) []peer.ID {
 	return out
 }
 
-const ruleMon = "real pubsubmon.Monitor: 1-12 metrics logged per case under a fresh name for peers inside and outside a generated peerset (valid/invalid, expired/unexpired, re-logged so that 'latest wins' matters), peerset changed between reads; LatestMetrics must equal the model (latest per peer, valid, unexpired, member); non-trivial = a non-member holds a fresh valid metric or a peer's latest metric differs in freshness from an earlier one; distinct by script"
+const ruleMon = "real pubsubmon.Monitor: 1-12 metrics per case, handed to LogMetric or (one case in three) published on the pubsub topic the monitor itself receives, under a fresh name for peers inside and outside a generated peerset (valid/invalid, expired/unexpired, re-logged so that 'latest wins' matters), peerset changed between reads; LatestMetrics must equal the model (latest per peer, valid, unexpired, member); non-trivial = a non-member holds a fresh valid metric or a peer's latest metric differs in freshness from an earlier one; distinct by script"
 
 func TestMonitorLatest(t *testing.T) {
 	leg := ev.L("monitor-latest", ruleMon)
@@ -408,6 +409,28 @@ func TestMonitorLatest(t *testing.T) {
 		var script []string
 		nontrivial := false
 		n := rapid.IntRange(1, 12).Draw(t, "n")
+		// the metrics reach the monitor through LogMetric (its own peer's) or
+		// through the pubsub topic (everybody else's: PublishMetric on the same
+		// monitor, which receives its own topic; invalid and expired metrics
+		// are not published at all)
+		viaPubsub := rapid.IntRange(0, 2).Draw(t, "route") == 0
+		// the topic does not keep the order of two messages (signatures are
+		// verified by a pool of workers), so each published metric is awaited
+		// before the next one goes out
+		await := func(p peer.ID, value string) {
+			monPeers.Store(append([]peer.ID(nil), gen.Peers[:6]...))
+			for deadline := time.Now().Add(15 * time.Second); ; time.Sleep(200 * time.Microsecond) {
+				for _, m := range mon.LatestMetrics(ctx, name) {
+					if m.Peer == p && m.Value == value {
+						return
+					}
+				}
+				if time.Now().After(deadline) {
+					leg.Inconclusive("a published metric did not come back on the topic within 15 s")
+					t.Skip("inconclusive")
+				}
+			}
+		}
 		check := func() {
 			set := gen.PeerSubset(6, 6).Draw(t, "peerset")
 			monPeers.Store(set)
@@ -434,17 +457,32 @@ func TestMonitorLatest(t *testing.T) {
 			if old, ok := latest[p]; ok && (old.expired != s.expired || old.valid != s.valid) {
 				nontrivial = true
 			}
-			if err := mon.LogMetric(ctx, mkMetric(name, p, s)); err != nil {
-				t.Fatal(err)
+			if viaPubsub {
+				if err := mon.PublishMetric(ctx, mkMetric(name, p, s)); err != nil {
+					t.Fatal(err)
+				}
+				if s.valid && !s.expired {
+					latest[p] = s
+					await(p, s.value)
+				}
+				script = append(script, fmt.Sprintf("publish(P%d,valid=%v,expired=%v)", pi(p), s.valid, s.expired))
+			} else {
+				if err := mon.LogMetric(ctx, mkMetric(name, p, s)); err != nil {
+					t.Fatal(err)
+				}
+				latest[p] = s
+				script = append(script, fmt.Sprintf("log(P%d,valid=%v,expired=%v)", pi(p), s.valid, s.expired))
 			}
-			latest[p] = s
-			script = append(script, fmt.Sprintf("log(P%d,valid=%v,expired=%v)", pi(p), s.valid, s.expired))
 			if rapid.IntRange(0, 3).Draw(t, "read") == 0 {
 				check()
 			}
 		}
 		check()
-		leg.Case(strings.Join(script, " ; "), nontrivial)
+		cl := "route:log"
+		if viaPubsub {
+			cl = "route:pubsub"
+		}
+		leg.Case(strings.Join(script, " ; "), nontrivial, cl)
 	})
 }
 
